@@ -17,6 +17,7 @@ import (
 	"unicode/utf16"
 	"unicode/utf8"
 
+	"golang.org/x/text/unicode/norm"
 	"golang.org/x/tools/go/ssa"
 )
 
@@ -29,8 +30,14 @@ import (
 type (
 	// EStruct is a struct value (copied on load and store).
 	EStruct struct{ F []any }
-	// ESlice is a slice value: the locations it spans (shared with the slices it was cut from).
-	ESlice struct{ L []*ELoc }
+	// ESlice is a slice value: the locations it spans (shared with the slices it was cut from). C is its capacity
+	// where that is larger than its length (the result of make with a capacity, or of cutting a longer slice): an
+	// append that fits writes into the shared locations, as the language says; an append that does not fit gives a
+	// slice of exactly the new length (the growth policy of the runtime is not modelled, so nothing can rely on it).
+	ESlice struct {
+		L []*ELoc
+		C int
+	}
 	// ELoc is an addressable location.
 	ELoc struct{ V any }
 	// EPtr is a pointer: a way to read and write a location (a variable, a field of one, an element).
@@ -214,6 +221,35 @@ func SetField(s *EStruct, t types.Type, name string, v any) bool {
 		}
 	}
 	return false
+}
+
+func (s *ESlice) capOf() int {
+	if s.C > len(s.L) {
+		return s.C
+	}
+	return len(s.L)
+}
+
+// upTo gives the locations [0:n) of the storage behind s, n within its capacity, creating those past its length that
+// were never written.
+func (s *ESlice) upTo(n int, el types.Type) ([]*ELoc, bool) {
+	if n <= len(s.L) {
+		return s.L, true
+	}
+	if n > cap(s.L) {
+		return nil, false
+	}
+	full := s.L[:n]
+	for i := len(s.L); i < n; i++ {
+		if full[i] == nil {
+			var z any
+			if el != nil {
+				z = ZeroOf(el)
+			}
+			full[i] = &ELoc{z}
+		}
+	}
+	return full, true
 }
 
 // SliceOf builds a slice value of the given elements.
@@ -623,10 +659,23 @@ func (ev *Evaluator) callWith(fn *ssa.Function, args []any, free []any, depth in
 						if e != nil {
 							return nil, false, e
 						}
-						if lo < 0 || hi < lo || hi > int64(cap(sl.L)) {
-							return nil, false, panics("slice bounds out of range [%d:%d] with capacity %d", lo, hi, cap(sl.L))
+						capN := int64(sl.capOf())
+						mx, e := get(x.Max, capN)
+						if e != nil {
+							return nil, false, e
 						}
-						env[x] = &ESlice{L: sl.L[lo:hi]}
+						if lo < 0 || hi < lo || mx < hi || mx > capN {
+							return nil, false, panics("slice bounds out of range [%d:%d:%d] with capacity %d", lo, hi, mx, capN)
+						}
+						var elT types.Type
+						if st, ok := x.Type().Underlying().(*types.Slice); ok {
+							elT = st.Elem()
+						}
+						full, ok := sl.upTo(int(hi), elT)
+						if !ok {
+							return nil, false, notEval("slice beyond the modelled storage")
+						}
+						env[x] = &ESlice{L: full[lo:hi], C: int(mx - lo)}
 					default:
 						return nil, false, notEval("slice of %T", a)
 					}
@@ -639,12 +688,20 @@ func (ev *Evaluator) callWith(fn *ssa.Function, args []any, free []any, depth in
 					if n < 0 || n > 1<<20 {
 						return nil, false, panics("makeslice: len out of range")
 					}
-					sl := &ESlice{}
-					el := x.Type().Underlying().(*types.Slice).Elem()
-					for i := int64(0); i < n; i++ {
-						sl.L = append(sl.L, &ELoc{ZeroOf(el)})
+					cv, e := val(x.Cap)
+					if e != nil {
+						return nil, false, e
 					}
-					env[x] = sl
+					cn, _ := cv.(int64)
+					if cn < n || cn > 1<<20 {
+						return nil, false, panics("makeslice: cap out of range")
+					}
+					el := x.Type().Underlying().(*types.Slice).Elem()
+					all := make([]*ELoc, cn)
+					for i := range all {
+						all[i] = &ELoc{ZeroOf(el)}
+					}
+					env[x] = &ESlice{L: all[:n], C: int(cn)}
 				case *ssa.Convert:
 					o, e := val(x.X)
 					if e != nil {
@@ -1257,7 +1314,7 @@ func (ev *Evaluator) callCommon(cc *ssa.CallCommon, val func(ssa.Value) (any, *E
 				return int64(len(s)), nil
 			case *ESlice:
 				if bi.Name() == "cap" {
-					return int64(cap(s.L)), nil
+					return int64(s.capOf()), nil
 				}
 				return int64(len(s.L)), nil
 			case *EMap:
@@ -1305,19 +1362,36 @@ func (ev *Evaluator) callCommon(cc *ssa.CallCommon, val func(ssa.Value) (any, *E
 					return nil, notEval("append to %T", args[0])
 				}
 			}
-			out := &ESlice{L: append([]*ELoc(nil), dst.L...)}
+			var vals []any
 			switch src := args[1].(type) {
 			case *ESlice:
 				for _, l := range src.L {
-					out.L = append(out.L, &ELoc{copyVal(l.V)})
+					vals = append(vals, copyVal(l.V))
 				}
 			case string:
 				for i := 0; i < len(src); i++ {
-					out.L = append(out.L, &ELoc{int64(src[i])})
+					vals = append(vals, int64(src[i]))
 				}
 			case nil:
 			default:
 				return nil, notEval("append of %T", args[1])
+			}
+			if n := len(dst.L) + len(vals); len(vals) > 0 && n <= dst.capOf() && n <= cap(dst.L) {
+				// it fits: the new elements go into the storage behind the slice, which other slices may share
+				full := dst.L[:n]
+				for i, v := range vals {
+					k := len(dst.L) + i
+					if full[k] == nil {
+						full[k] = &ELoc{}
+					}
+					full[k].V = v
+				}
+				return &ESlice{L: full, C: dst.capOf()}, nil
+			}
+			out := &ESlice{L: make([]*ELoc, 0, len(dst.L)+len(vals))}
+			out.L = append(out.L, dst.L...)
+			for _, v := range vals {
+				out.L = append(out.L, &ELoc{v})
 			}
 			return out, nil
 		case "min", "max":
@@ -2108,6 +2182,14 @@ func libraryCall(name string, args []any) (any, *EvalError, bool) {
 	case "unicode/utf8.ValidRune":
 		if isN(0) {
 			return utf8.ValidRune(rune(n(0))), nil, true
+		}
+	case "golang.org/x/text/unicode/norm.Form.String":
+		if isN(0) && isS(1) && n(0) >= 0 && n(0) <= 3 {
+			return norm.Form(n(0)).String(s(1)), nil, true
+		}
+	case "golang.org/x/text/unicode/norm.Form.IsNormalString":
+		if isN(0) && isS(1) && n(0) >= 0 && n(0) <= 3 {
+			return norm.Form(n(0)).IsNormalString(s(1)), nil, true
 		}
 	case "unicode/utf8.RuneCountInString":
 		if isS(0) {
